@@ -18,7 +18,7 @@ ASSUMPTIONS = _c01.ASSUMPTIONS + [
 RULE = ("C01's bodies with handlers for CancelledError/BaseException that log, await and optionally suppress; "
         "cancel() injected at every instant: immediately after eager() returns (also repeated, also mixed with "
         "future completions and flag clears), after k loop iterations, right after the awaited future completed "
-        "but before the Task resumed, through eager_ctx()/cancelling() exit; Task-like futures whose cancel() only "
+        "but before the Task resumed, through eager_ctx()/cancelling() exit where the k-th cancel of the script is the block exit and the earlier ones are cancel() calls made inside the block (plus a focused stream: k suppressing stages that suspend again, then a stage with cleanup); Task-like futures whose cancel() only "
         "requests; programs of 2-3 coroutines with shared futures / awaiting one another / nested children. "
         "Non-trivial = a situation of situations_hit was reached (cancel-before-first-step, "
         "cancel-after-completion-before-resume, cancel-handler-ran, handler-awaited, repeated cancel, …)")
